@@ -1,6 +1,9 @@
 SPECIFICATION Spec
-CONSTANT N = 6
+CONSTANTS
+  N = 6
+  UseBaseList = TRUE
 INVARIANT WellFormed
 INVARIANT LocalPrecedence
 INVARIANT Monotone
+INVARIANT FirstBaseNext
 INVARIANT ChainsLinearise
